@@ -1,6 +1,6 @@
 import AscentVerif.Proofs.C15Basic
 /-!
-# C15: facts about `collectLazy` / `mapLazy` / `firstPanic` / `collectEager` / `flattenP` / `zipIdx`
+# C15: facts about `collectLazy` / `mapLazy` / `flattenP` / `zipIdx`
 -/
 namespace AscentVerif.Check
 open AscentVerif AscentVerif.Engine
@@ -70,60 +70,6 @@ theorem collectLazy_ok_mem {α : Type} {rs : List (Except Err α)} {xs : List α
   rw [collectLazy_ok h]
   exact List.mem_map_of_mem hx
 
-/-! ## firstPanic, collectEager -/
-
-theorem firstPanic_some {α : Type} : ∀ {rs : List (Except Err α)} {e : Err},
-    firstPanic rs = some e → e.isPanic = true ∧ .error e ∈ rs
-  | [], e, h => by simp [firstPanic] at h
-  | .error e' :: rest, e, h => by
-    simp only [firstPanic] at h
-    split at h
-    · rename_i hp
-      simp only [Option.some.injEq] at h
-      subst h
-      exact ⟨hp, List.mem_cons_self⟩
-    · obtain ⟨h1, h2⟩ := firstPanic_some h
-      exact ⟨h1, List.mem_cons_of_mem _ h2⟩
-  | .ok a :: rest, e, h => by
-    simp only [firstPanic] at h
-    obtain ⟨h1, h2⟩ := firstPanic_some h
-    exact ⟨h1, List.mem_cons_of_mem _ h2⟩
-
-theorem collectEager_error {α : Type} {rs : List (Except Err α)} {e : Err}
-    (h : collectEager rs = .error e) : .error e ∈ rs := by
-  unfold collectEager at h
-  split at h
-  · rename_i e' he'
-    simp only [Except.error.injEq] at h
-    subst h
-    exact (firstPanic_some he').2
-  · exact collectLazy_error h
-
-theorem collectEager_ok {α : Type} {rs : List (Except Err α)} {xs : List α}
-    (h : collectEager rs = .ok xs) : collectLazy rs = .ok xs := by
-  unfold collectEager at h
-  split at h
-  · cases h
-  · exact h
-
-theorem collectEager_ok_mem {α : Type} {rs : List (Except Err α)} {xs : List α}
-    (h : collectEager rs = .ok xs) {x : α} (hx : x ∈ xs) : .ok x ∈ rs :=
-  collectLazy_ok_mem (collectEager_ok h) hx
-
-theorem collectEager_error_of_mem {α : Type} {rs : List (Except Err α)} {e : Err}
-    (h : .error e ∈ rs) : ∃ e', collectEager rs = .error e' := by
-  unfold collectEager
-  cases firstPanic rs with
-  | some e' => exact ⟨e', rfl⟩
-  | none => exact collectLazy_error_of_mem h
-
-theorem collectEager_ne_ok_of_mem {α : Type} {rs : List (Except Err α)} {e : Err} {xs : List α}
-    (h : .error e ∈ rs) : collectEager rs ≠ .ok xs := by
-  obtain ⟨e', he'⟩ := collectEager_error_of_mem h
-  rw [he']
-  intro h'
-  cases h'
-
 /-! ## mapLazy -/
 
 theorem mapLazy_error {α β : Type} {f : α → Except Err β} {xs : List α} {e : Err}
@@ -146,6 +92,13 @@ theorem mapLazy_error_of_mem {α β : Type} {f : α → Except Err β} {xs : Lis
   apply collectLazy_error_of_mem (e := e)
   rw [← h]
   exact List.mem_map_of_mem hx
+
+theorem mapLazy_ne_ok_of_mem {α β : Type} {f : α → Except Err β} {xs : List α} {x : α} {e : Err} {ys : List β}
+    (hx : x ∈ xs) (h : f x = .error e) : mapLazy f xs ≠ .ok ys := by
+  obtain ⟨e', he'⟩ := mapLazy_error_of_mem hx h
+  rw [he']
+  intro h'
+  cases h'
 
 theorem mapLazy_ok_of_forall {α β : Type} {f : α → Except Err β} : ∀ {xs : List α},
     (∀ x ∈ xs, ∃ y, f x = .ok y) → ∃ ys, mapLazy f xs = .ok ys
